@@ -759,6 +759,12 @@ func (vc *VC) builtin(b *ssa.Builtin, c *ssa.CallCommon, v ssa.Value, st *State,
 				}
 			}
 		}
+		if ld, ok := c.Args[0].(*ssa.UnOp); ok && ld.Op == token.MUL {
+			if fv, ok := ld.X.(*ssa.FreeVar); ok && vc.loopContaining(vc.cur) == nil && vc.localChanSingleClose(fv, c) {
+				vc.assumeNote("a local channel captured by closures and closed by a single statement is not closed by anyone else")
+				vc.assume(vc.guard(), eq(vc.heapRead(st, "#closed", B, ch.S), vc.heapRead(vc.entrySt, "#closed", B, ch.S)))
+			}
+		}
 		vc.oblige("close-nil-chan", "", not(eq(ch.S, "lnil")), pos)
 		vc.oblige("close-closed-chan", "", not(vc.heapRead(st, "#closed", B, ch.S)), pos)
 		vc.heapWrite(st, "#closed", B, ch.S, "true")
@@ -985,4 +991,101 @@ func (vc *VC) resolveHeapKey(e Expr) string {
 		vc.heapKeySort(name, types.Typ[types.Byte])
 	}
 	return name
+}
+
+// localChanSingleClose: fv is a captured local channel variable of the parent function that never
+// escapes (its loads are only received from, selected on or closed) and cl is the only close of it.
+func (vc *VC) localChanSingleClose(fv *ssa.FreeVar, cl *ssa.CallCommon) bool {
+	fn := vc.fn
+	parent := fn.Parent()
+	if parent == nil {
+		return false
+	}
+	// parent must be loop-free so that the channel/closure pair is created once per activation
+	for _, b := range parent.Blocks {
+		for _, s := range b.Succs {
+			if s.Dominates(b) {
+				return false
+			}
+		}
+	}
+	idx := -1
+	for i, f := range fn.FreeVars {
+		if f == fv {
+			idx = i
+		}
+	}
+	var al *ssa.Alloc
+	nmc := 0
+	for _, b := range parent.Blocks {
+		for _, ins := range b.Instrs {
+			if mc, ok := ins.(*ssa.MakeClosure); ok && mc.Fn == ssa.Value(fn) && idx >= 0 && idx < len(mc.Bindings) {
+				nmc++
+				al, _ = mc.Bindings[idx].(*ssa.Alloc)
+				if al != nil && !singleStoreBefore(al, mc) {
+					return false
+				}
+			}
+		}
+	}
+	if al == nil || nmc != 1 {
+		return false
+	}
+	closes := 0
+	ok := true
+	var visitLoads func(refs []ssa.Instruction, depth int)
+	visitLoads = func(refs []ssa.Instruction, depth int) {
+		for _, r := range refs {
+			switch u := r.(type) {
+			case *ssa.Store, *ssa.DebugRef:
+			case *ssa.UnOp:
+				if u.Op != token.MUL {
+					ok = false
+					continue
+				}
+				for _, r2 := range *u.Referrers() {
+					switch w := r2.(type) {
+					case *ssa.DebugRef, *ssa.Select:
+					case *ssa.UnOp:
+						if w.Op != token.ARROW {
+							ok = false
+						}
+					case *ssa.Call:
+						if bi, isB := w.Call.Value.(*ssa.Builtin); isB && bi.Name() == "close" {
+							closes++
+							if &w.Call != cl {
+								ok = false
+							}
+						} else {
+							ok = false
+						}
+					default:
+						ok = false
+					}
+				}
+			case *ssa.MakeClosure:
+				inner := u.Fn.(*ssa.Function)
+				if depth > 2 {
+					ok = false
+					continue
+				}
+				for i, b := range u.Bindings {
+					if (b == ssa.Value(al) || depth > 0) && i < len(inner.FreeVars) {
+						if b == ssa.Value(al) || isFreeVarOf(b, refs) {
+							visitLoads(*inner.FreeVars[i].Referrers(), depth+1)
+						}
+					}
+				}
+			default:
+				ok = false
+			}
+		}
+	}
+	visitLoads(*al.Referrers(), 0)
+	return ok && closes == 1
+}
+
+func isFreeVarOf(v ssa.Value, _ []ssa.Instruction) bool {
+	_, ok := v.(*ssa.FreeVar)
+	return ok
 }
